@@ -373,6 +373,15 @@ pub fn scenarios(quick: bool) -> Vec<Scenario> {
     let m = |chunks: &[usize]| MsgSpec::simple(chunks);
     // 1. smallest: GET, tiny response body
     v.push(mk("get-small", Cfg::default(), vec![StreamSpec::new(m(&[]), m(&[5]))]));
+    // locally configured HPACK table sizes (larger than the default, and none): the peer's encoder follows the advertised
+    // size with a size update that the local decoder must expect; two streams so that the dynamic table is used
+    for (name, size) in [("header-table-8192", 8192u32), ("header-table-0", 0)] {
+        v.push(mk(
+            name,
+            Cfg { c_header_table_size: Some(size), s_header_table_size: Some(size), ..Cfg::default() },
+            vec![StreamSpec::new(MsgSpec { head: HeadKind::Repeated, ..m(&[]) }, MsgSpec { head: HeadKind::Repeated, ..m(&[3]) }), StreamSpec::new(MsgSpec { head: HeadKind::Repeated, ..m(&[2]) }, MsgSpec { head: HeadKind::Repeated, ..m(&[2]) })],
+        ));
+    }
     // 2. POST with body both ways, trailers both ways
     v.push(mk(
         "post-trailers",
